@@ -9,8 +9,8 @@
    retryStream.RecvMsg ("one break").  [Inv s]: the context is only cancelled on
    a drained stream (true of every state of a run); [pending s]: the messages
    still owed to the caller, in server order. *)
-From Coq Require Import List.
-From Verif Require Import Rpc.Retry Rpc.RetryProofs Rpc.RetryOk.
+From Coq Require Import List Arith.
+From Verif Require Import Rpc.Retry Rpc.RetryProofs Rpc.RetryOk Rpc.Concurrent Rpc.ConcurrentProofs.
 Import ListNotations.
 
 (* watch streams, all scripts, budgets and cancellation plans: the caller
@@ -116,3 +116,36 @@ Print Assumptions C36_unary.
 Theorem C36_unary_once : forall script pl r t fin, run MUnary 0 script pl r = (t, fin) -> opens t = 1.
 Proof. exact unary_once. Qed.
 Print Assumptions C36_unary_once.
+
+(* ---- several watch streams at the same time behind ONE interceptor ----
+   [cstep]: one step of one stream's client (a RecvMsg of the caller, or ONE attempt of the
+   reopen loop with its own policy); [grun max cfgs schedule]: the whole client, streams
+   stepping in the order of an arbitrary schedule; Max is the only thing they share. *)
+
+(* the step-wise client of one stream computes exactly the single-stream run *)
+Theorem C36_single_stream_steps : forall m max script pl r t fin,
+  need_retry m = true -> run_stream m max script pl r = (t, fin) ->
+  exists k s', forall k', k <= k' ->
+    iter k' (cstep pl max) (cinit script r) = mkCst s' (PDone fin) t.
+Proof. exact single_stream_steps. Qed.
+Print Assumptions C36_single_stream_steps.
+
+(* frame: whatever the schedule, a stream's state is the result of its own steps only *)
+Theorem C36_frame : forall max cfgs sched g j c cfg,
+  nth_error g j = Some c -> nth_error cfgs j = Some cfg ->
+  nth_error (grun max cfgs sched g) j =
+    Some (iter (count_occ Nat.eq_dec sched j) (cstep (g_plan cfg) max) c).
+Proof. exact frame. Qed.
+Print Assumptions C36_frame.
+
+(* independence: any number of concurrent watch streams, any schedule that lets stream j
+   run long enough: stream j ends exactly as it would alone -- the budget is per stream
+   and per break, never shared *)
+Theorem C36_independence : forall m max cfgs j cfg t fin,
+  need_retry m = true ->
+  nth_error cfgs j = Some cfg ->
+  run_stream m max (g_script cfg) (g_plan cfg) (g_req cfg) = (t, fin) ->
+  exists k s', forall sched, k <= count_occ Nat.eq_dec sched j ->
+    nth_error (grun max cfgs sched (ginit cfgs)) j = Some (mkCst s' (PDone fin) t).
+Proof. exact independence. Qed.
+Print Assumptions C36_independence.
